@@ -231,6 +231,9 @@ class StmtMixin:
 
     def st_AugAssign(self, s, p):
         cur = self.ev(s.target, p); r = self.ev(s.value, p)
+        if isinstance(cur, VExt) and cur.tag == 'LpProblem' and isinstance(s.op, ast.Add):
+            self.lp_add_impl(self, r, p, s.lineno)
+            return [('normal', p, None)]
         if isinstance(cur, VStr) and isinstance(s.op, ast.Add) and isinstance(r, VStr):
             v = self.str_append(cur, r, p, s.lineno)
         elif isinstance(cur, (VAff, VLpVar)) or isinstance(r, (VAff, VLpVar)):
@@ -459,6 +462,7 @@ class StmtMixin:
 
     def havoc_ghost(self, name, p, tag):
         t = p.ghost.get(name)
+        if t is None and name == 'feas': t = z3.Bool('FEAS0')
         if t is None or not z3.is_expr(t): raise Undecided('cannot havoc ghost ' + name)
         p.ghost[name] = fresh(name.replace(':', '_') + tag, t.sort())
 
@@ -548,7 +552,9 @@ class StmtMixin:
         if isinstance(t, ast.Attribute):
             try: o = self.spec_value_ast(t.value, p)
             except (Undecided, StaleContract): o = None
-            if isinstance(o, VObj): return {('field', o.oid, t.attr)}
+            if isinstance(o, VObj):
+                if isinstance(p.objs[o.oid].get(t.attr), VExt) and p.objs[o.oid][t.attr].tag == 'LpProblem': return {('ghost', 'feas')}
+                return {('field', o.oid, t.attr)}
             if isinstance(o, VRef) or t.attr in SCHEMA: return {('heap', t.attr)}
             raise Undecided('cannot determine frame of write to .%s (line %d)' % (t.attr, t.lineno))
         if isinstance(t, (ast.Tuple, ast.List)):
